@@ -12,8 +12,8 @@
                            by a rule) *)
 From ClapModel Require Import Base.Bytes Base.Machine Base.Utf8 Lex.OsStrExtModel.
 From ClapModel Require Import Parse.Cmd Parse.Build Parse.Valid Parse.Matcher Parse.Errors Parse.Validator Parse.Parser.
-From ClapModel Require Value.ValueBase Value.IntFactory Value.BoolParse Value.BoolParseProofs Value.PossibleValues
-                       Value.PossibleValuesProofs Value.ValueParsersProofs.
+From ClapModel Require Value.ValueBase Value.IntFactory Value.BoolParse Value.PossibleValues.
+From ClapModel Require ParseProofs.VpKinds.
 From Coq Require Import ZArith Lia Bool List.
 From RecordUpdate Require Import RecordSet.
 Import RecordSetNotations.
@@ -279,20 +279,16 @@ Proof.
   - apply vres_kind_none.
 Qed.
 
-(** the C04 parsers: one of the three value-error kinds, [InvalidUtf8] only for ill-formed input *)
+(** the C04 parsers: one of the three value-error kinds, [InvalidUtf8] only for ill-formed input (VpKinds.v:
+    from the definitions of the models; nothing about the regenerated tables is used) *)
 Lemma vp_parse_reject_value v s k :
   match v with VPBoolish | VPFalsey | VPNonEmpty | VPPossible _ _ | VPRanged _ _ _ => True | _ => False end ->
   vp_parse v s = Some k ->
   In k [EInvalidUtf8; EInvalidValue; EValueValidation] /\ (k = EInvalidUtf8 -> utf8_valid s = false).
 Proof.
-  intros Hv H. destruct v as [| | | |lo hi| | | |ic pvs|t lo hi]; try contradiction Hv; cbn [vp_parse] in H;
-    apply vres_kind_some in H; destruct H as [k' [H ->]]; (split; [apply ek_of_kinds|]); intros Hk;
-    apply ek_of_utf8 in Hk; subst k'.
-  - apply ClapModel.Value.BoolParseProofs.boolish_parse_reject in H. destruct H as [[_ U]|[D _]]; [exact U|discriminate D].
-  - apply ClapModel.Value.BoolParseProofs.falsey_parse_reject in H. apply H.
-  - apply ClapModel.Value.BoolParseProofs.nonempty_parse_reject in H. destruct H as [[D _]|[_ U]]; [discriminate D|exact U].
-  - apply ClapModel.Value.PossibleValuesProofs.possible_parse_reject in H. destruct H as [[_ U]|[D _]]; [exact U|discriminate D].
-  - apply ClapModel.Value.ValueParsersProofs.ranged_parse_reject in H. destruct H as [[_ U]|[D _]]; [exact U|discriminate D].
+  intros _ H. split.
+  - destruct (ClapModel.ParseProofs.VpKinds.vp_parse_value_kind v s k H) as [->|[->| ->]]; cbn; tauto.
+  - intros ->. exact (ClapModel.ParseProofs.VpKinds.vp_parse_utf8_kind v s H).
 Qed.
 
 Theorem vp_parse_reject_sound v s k :
